@@ -118,7 +118,7 @@ def _perform(self, t, act, endo):
         upto = act.get('partial', 0)
         for j, nm in enumerate(endo[:upto]):
             d['_' + nm][t] = d['_' + nm][t] + 1.0
-        exc = EXCEPTIONS[act['exc']](f"injected {act['exc']}")
+        exc = EXCEPTIONS[act['exc']]() if act.get('noargs') else EXCEPTIONS[act['exc']](f"injected {act['exc']}")
         raise exc
     if kind == 'pywarn':
         cat = WARNING_CATEGORIES[act.get('cat', 'RuntimeWarning')]
@@ -183,7 +183,7 @@ def _hook_action(self, t, act):
     if kind == 'noop':
         return
     if kind == 'raise':
-        raise EXCEPTIONS[act['exc']](f"injected {act['exc']} in hook")
+        raise EXCEPTIONS[act['exc']]() if act.get('noargs') else EXCEPTIONS[act['exc']](f"injected {act['exc']} in hook")
     if kind == 'pywarn':
         warnings.warn('injected warning in hook', WARNING_CATEGORIES[act.get('cat', 'RuntimeWarning')])
         return
